@@ -131,12 +131,14 @@ impl Sx127xVariant for Sx1276 {
         config_1 = (config_1 & 0xf1u8) | (cr << 1);
         radio.write_register(Register::RegModemConfig1, config_1).await?;
 
-        let mut ldro_agc_auto_flags = 0x00u8; // LDRO and AGC Auto both off
+        let mut ldro_flag = 0x00u8; // LDRO off
         if mdltn_params.low_data_rate_optimize != 0 {
-            ldro_agc_auto_flags = 0x08u8; // LDRO on and AGC Auto off
+            ldro_flag = 0x08u8; // LDRO on
         }
+        // Only the LowDataRateOptimize bit belongs to the modulation parameters; AgcAutoOn
+        // (bit 2) keeps whatever was programmed, as in Semtech's reference driver.
         let mut config_3 = radio.read_register(Register::RegModemConfig3).await?;
-        config_3 = (config_3 & 0xf3u8) | ldro_agc_auto_flags;
+        config_3 = (config_3 & 0xf7u8) | ldro_flag;
         radio.write_register(Register::RegModemConfig3, config_3).await?;
 
         if radio.data.sensitivity_quirk {
